@@ -24,17 +24,17 @@ CHECKS = {
     'C09': _c('other', 'DESIGN.md 7/C09', 'abstract interpretation: panic obligations, effect analysis at Err returns (buffer written? state changed?), must-hold facts at the header call',
               'Panic-freedom of the five encapsulation entry points over symbolic sizes; at every Err return the output buffer is unwritten and every encapsulator field holds its initial abstract value; mandatory rejections are established before any packet is built. Loop-internal sites of encap_ext are declined and listed.'),
     'C10': _c('other', 'DESIGN.md 7/C10', 'return-provenance table and read-extent rules over the abstract interpretation of decap',
-              'Consumed length per outcome is the decoded packet length or the buffer length as the walking rule requires; packet-level outcomes stay feasible when the buffer ends with the packet; all input slices end inside the packet; emitters never encode the padding pattern.'),
+              'Consumed length per outcome is the decoded packet length or the buffer length as the walking rule requires; packet-level outcomes stay feasible when the buffer ends with the packet; all input slices end inside the packet; every remainder of two bytes or more is decoded and a padding header ends in Ok(Padding) consuming the rest; emitters never encode the padding pattern.'),
     'C11': _c('other', 'DESIGN.md 7/C11', 'path summaries of encap_frag with linear entailment / satisfiability obligations',
               'Every return of encap_frag classified by kind: progress (>= 1 byte), exact context advance, end packet exactly under its guard, size error only when nothing useful fits, payload windows pdu[pos..pos+n); first fragments count their payload. The call bound is the paper corollary.'),
     'C12': _c('proof', 'DESIGN.md 7/C12', 'constant table = generated table, symbolic term of the byte step, data-dependence chain, provenance at call sites',
-              'Closed static argument that DefaultCrc is CRC-32/MPEG-2 over be(total length) | be(protocol type) | label | PDU and that the encapsulator passes these fields: 256 table words compared with the polynomial, the fold step term compared with the table-driven MSB-first step, the four chained calls and their seed, the call-site arguments.'),
+              'Closed static argument that DefaultCrc is CRC-32/MPEG-2 over be(total length) | be(protocol type) | label | PDU and that the encapsulator passes these fields: 256 table words compared with the polynomial, the byte step term (fold closure or explicit loop over data) compared with the table-driven MSB-first step, the four chained calls and their seed, the call-site arguments of the encapsulator, and the receiver rules of C03 for the recomputation in decap_end (empty label after a re-use first fragment).'),
     'C14': _c('proof', 'DESIGN.md 7/C14', 'abstract evaluation of both codec functions per (kind, label type) cell with bit-field decomposition',
               'Finite closed argument: encoder returns K(kind,lt) + length on each of 16 cells, decoder partitions the 16-bit word into 15 Some cells satisfying word = K + length (length <= 4095) and the None cell word <= 0x0FFF, unreachable arms dead; hence both round trips.'),
     'C15': _c('other', 'DESIGN.md 7/C15', 'path summaries of check_label_re_use compared with the obligations of an inductive invariant; who-may-write rule',
               'Substitution only when enabled and equal to the remembered label, counter strictly below max and incremented, reset when the maximum is reached, nothing substituted with an empty memory, setters clear memory and counter. The step to "never more than N consecutive" is paper induction.'),
     'C17': _c('other', 'DESIGN.md 7/C17', 'scenario path summaries (abstract interpretation) compared with a specification table',
-              'Each SimpleGseMemory method under every scenario its contract distinguishes returns exactly the specified value and leaves slot and free list as specified (identity of context and buffer objects); no method writes buffer contents.'),
+              'Each SimpleGseMemory method under every scenario its contract distinguishes returns exactly the specified value and leaves slot and free list as specified (identity of context and buffer objects); no method writes buffer contents; no push onto the free list without room (the list never outgrows its capacity).'),
     'C18': _c('other', 'DESIGN.md 7/C18', 'sibling cross-check: path summaries of preview and writer on shared symbolic inputs, joint satisfiability',
               'For every jointly satisfiable pair of return partitions of (encap_preview, encap) and (encap_frag_preview, encap_frag) the results agree (error kind, packet kind, packet length, payload length); previews take no mutable reference and store through none.'),
 }
@@ -45,7 +45,7 @@ CHECKS.update({
     'C02': _c('other', 'DESIGN.md 7/C02', 'per-step summaries of both sides (layout, bookkeeping, formula agreement, reject-path infeasibility); induction over schedules on paper',
               'Instances of the C06 / C11 / C12.R5 rules for the sender and of the C03 rules for the receiver, plus first-fragment windows / context fields, from_label_reuse = (type is re-use), infeasible reject paths per fragment kind, consumed = G+2. The quantifier over schedules is covered by a paper induction whose step is what is machine-checked.'),
     'C13': _c('other', 'DESIGN.md 7/C13', 'path summaries vs contract table (Extension::new, H-LEN table), value obligations and must-hold facts at the header call of encap_ext, forced-Unknown scenario of decap',
-              'Claimed in part: constructor contract and no panic, one H-LEN table, lengths and header fields of encap_ext as in C06, only decodable (protocol type, last extension) combinations reach a packet, Unknown mandatory extension drops exactly the packet before any storage is taken, tables of the bundled managers. Equality of the recovered extension list is NOT decided (relational loop invariant out of reach).'),
+              'Claimed in part: constructor contract and no panic, one H-LEN table, lengths and header fields of encap_ext as in C06, only decodable (protocol type, last extension) combinations reach a packet, Unknown mandatory extension drops exactly the packet before any storage is taken, the receiver walker reads one contiguous prefix of the extension area and reports exactly its end, tables of the bundled managers. Equality of the recovered extension list is NOT decided (relational loop invariant out of reach).'),
     'C16': _c('other', 'DESIGN.md 7/C16', 'absence of poison state: state-dependence (who reads / writes the four fields), memory scenario table, panic and leak prerequisites re-decided',
               'A history can act on a later transfer only through last_label (read only for re-use labels, cleared by reset) and the memory (scenario table: serves the probe in every state, configuration never written); decap has no reachable panic and no leak. The success of the probe is the composition argument, not a computed fact.'),
     'C19': _c('other', 'DESIGN.md 7/C19', 'sibling layout agreement: return paths of the peek partitioned by decoded header cell vs the ETSI windows decap uses',
